@@ -75,6 +75,10 @@ mod __verif_native_fs {
                 // a file in every non-empty subset of the layers, each copy with its own content
                 for mask in 1..(1u32 << nlayers) { for l in 0..nlayers { if mask >> l & 1 == 1 { put(roots[l], &format!("data/f{}.bin", mask), format!("layer{}-mask{}", l, mask).as_bytes()); } } }
                 for l in 0..nlayers { put(roots[l], &format!("only{}/deep/x.txt", l), b"x"); put(roots[l], "shared/dir/common.txt", format!("c{}", l).as_bytes()); put(roots[l], &format!("shared/l{}.dat", l), b"d"); }
+                // names whose joined-path order differs from a depth-first walk: a directory beside siblings that extend its name
+                put(roots[0], "order/a/x.txt", b"1"); put(roots[0], "order/a.txt", b"2"); put(roots[0], "order/a-b", b"3"); put(roots[0], "order/a b", b"4"); put(roots[0], "order/B", b"5");
+                // a directory in the TOP layer named like a file of the bottom layer
+                if nlayers >= 2 { put(roots[0], "shadow/person.bin", b"the file"); std::fs::create_dir_all(roots[nlayers - 1].join("shadow/person.bin")).unwrap(); }
                 let fs = match LayeredFilesystem::new(roots.iter().map(|r| r.to_string_lossy().to_string()).collect(), lang, game) { Ok(f) => f, Err(e) => { check(false, "C12.filesystem_opens", || format!("{:?}: {:?}", game, e)); continue; } };
                 let show = |what: &str| format!("{:?} {} layers: {}", game, nlayers, what);
                 // ---- C12: top layer wins
@@ -98,9 +102,16 @@ mod __verif_native_fs {
                         check(l.iter().all(|p| fs.exists(p, false).unwrap_or(false)), "C13.every_listed_path_exists", || show(&format!("{:?}", l))); }
                     Err(e) => { check(false, "C13.listing_is_sorted_deduplicated_union", || show(&format!("{:?}", e))); }
                 }
+                match fs.list("order", None, false) { Ok(l) => { let l = norm(l); let mut want = l.clone(); want.sort(); want.dedup();
+                        check(l == want && l.len() == 6, "C13.listing_is_in_ascending_order", || show(&format!("list(order) = {:?}", l))); }
+                    Err(e) => { check(false, "C13.listing_is_in_ascending_order", || show(&format!("{:?}", e))); } }
+                if nlayers >= 2 {
+                    check(fs.read("shadow/person.bin", false).ok().as_deref() == Some(&b"the file"[..]), "C12.read_returns_highest_priority_layer_that_contains_the_file", || show("a directory of that name in the top layer"));
+                    check(fs.file_exists("shadow/person.bin", false).unwrap_or(false), "C12.existence_queries_search_top_down", || show("shadow/person.bin"));
+                }
                 match fs.list("shared", Some("*.dat"), false) { Ok(l) => { check(norm(l) == (0..nlayers).map(|k| format!("shared/l{}.dat", k)).collect::<Vec<_>>(), "C13.pattern_listing", || show("list(shared, *.dat)")); }
                     Err(e) => { check(false, "C13.pattern_listing", || show(&format!("{:?}", e))); } }
-                match fs.subdirectories("", false) { Ok(l) => { let mut want: Vec<String> = vec!["data".into(), "shared".into()]; for k in 0..nlayers { want.push(format!("only{}", k)); } want.sort();
+                match fs.subdirectories("", false) { Ok(l) => { let mut want: Vec<String> = vec!["data".into(), "shared".into(), "order".into()]; if nlayers >= 2 { want.push("shadow".into()); } for k in 0..nlayers { want.push(format!("only{}", k)); } want.sort();
                         check(norm(l.clone()) == want, "C13.subdirectories_are_the_immediate_child_directories", || show(&format!("{:?}", l))); }
                     Err(e) => { check(false, "C13.subdirectories_are_the_immediate_child_directories", || show(&format!("{:?}", e))); } }
                 check(matches!(fs.list("nowhere", None, false), Ok(ref l) if l.is_empty()) && matches!(fs.subdirectories("nowhere", false), Ok(ref l) if l.is_empty()), "C13.absent_directory_lists_as_empty", || show("nowhere"));
@@ -126,7 +137,30 @@ mod __verif_native_fs {
                     if *localized { if let Ok(l) = fs.list(&split(p).0, None, true) { let want_dir = expected(game, lang, &split(p).0).unwrap();
                         check(fs.list(want_dir.trim_end_matches('/'), None, false).ok() == Some(l.clone()) || fs.list(&want_dir, None, false).ok() == Some(l), "C13.localized_listing_equals_unlocalized_listing_of_localized_directory", || show(p)); } }
                 }
+                // overwriting with a SHORTER payload replaces the file (no stale tail), plain and compressed
+                for p in ["new/plain.bin".to_string(), format!("new/packed.bin.{}", suffix)] {
+                    let short: Vec<u8> = vec![9, 8, 7];
+                    if fs.write(&p, &short, false).is_ok() {
+                        check(fs.read(&p, false).ok().as_ref() == Some(&short), "C12.read_after_write_returns_the_written_bytes", || show(&format!("{} overwritten with a shorter payload", p)));
+                        let stored = std::fs::read(roots[nlayers - 1].join(&p)).unwrap_or_default();
+                        let cf = if suffix == "lz" { crate::CompressionFormat::LZ13(crate::LZ13CompressionFormat {}) } else { crate::CompressionFormat::LZ10(crate::LZ10CompressionFormat {}) };
+                        let want = if p.ends_with(suffix) { cf.compress(&short).unwrap() } else { short.clone() };
+                        check(stored == want, "C12.write_replaces_the_file", || show(&format!("{} stored {} expected {}", p, hex(&stored), hex(&want))));
+                    } else { check(false, "C12.write_succeeds", || show(&p)); }
+                }
                 for l in 0..nlayers - 1 { check(snapshot(roots[l]) == before[l], "C12.lower_layers_are_never_modified", || show(&format!("layer {}", l))); }
+                // every supported language: the localized listing is the listing of the localized directory, not of its parent
+                for l in LANGS { if let Some(ldir) = expected(game, l, "Loc") {
+                    if let Ok(fsl) = LayeredFilesystem::new(roots.iter().map(|r| r.to_string_lossy().to_string()).collect(), l, game) {
+                        put(roots[nlayers - 1], "Loc/parent_only.txt", b"p");
+                        put(roots[nlayers - 1], &format!("{}/in_{:?}.txt", ldir.trim_end_matches('/'), l), b"l");
+                        let got = fsl.list("Loc", None, true).map(norm);
+                        let want = fsl.list(ldir.trim_end_matches('/'), None, false).map(norm);
+                        check(got.is_ok() && got.as_ref().ok() == want.as_ref().ok(), "C13.localized_listing_equals_unlocalized_listing_of_localized_directory", || show(&format!("{:?}: list(Loc, localized) = {:?}, list({}) = {:?}", l, got, ldir, want)));
+                        let gs = fsl.subdirectories("Loc", true).map(norm); let ws = fsl.subdirectories(ldir.trim_end_matches('/'), false).map(norm);
+                        check(gs.is_ok() && gs.as_ref().ok() == ws.as_ref().ok(), "C13.localized_listing_equals_unlocalized_listing_of_localized_directory", || show(&format!("{:?}: subdirectories", l)));
+                    }
+                } }
                 // ---- C12: typed helpers use the codec configured for the game
                 let big = matches!(game, Game::FE9 | Game::FE10);
                 check(matches!(fs.endian(), Endian::Big) == big && matches!(fs.text_archive_format(), TextArchiveFormat::ShiftJIS) == big, "C12.codec_configured_for_the_game", || show("endian / text format"));
